@@ -24,3 +24,4 @@ open Nitime.C20.Props
 #print axioms crosscov_along_axis
 #print axioms zscore_along_axis
 #print axioms percent_change_along_axis
+#print axioms corrspec_sums_to_pearson
